@@ -621,6 +621,21 @@ func (g *Gen) resolveType(tx *TypeX, pkg *packages.Package) (types.Type, string)
 			return nil, so
 		case "bool", "Bool":
 			return types.Typ[types.Bool], "Bool"
+		}
+		if strings.HasPrefix(tx.Name, "Mem_") {
+			// Mem_T: the value of mem(s) for a []T (backing array as a map from index to T)
+			et, err := parseTypeStr(strings.TrimPrefix(tx.Name, "Mem_"))
+			if err != nil {
+				g.fail("bad element type in %s", tx.Name)
+			}
+			egt, _ := g.resolveType(et, pkg)
+			if egt == nil {
+				g.fail("unknown element type in %s", tx.Name)
+			}
+			_, so := g.memComp(egt)
+			return nil, so
+		}
+		switch tx.Name {
 		case "string":
 			return types.Typ[types.String], "Slice"
 		case "byte":
